@@ -28,11 +28,11 @@ Proof.
 Qed.
 
 (* the per-run obligation is the boolean static_ok; this theorem is what it means *)
-Theorem static_inert g S entries :
-  static_ok g S entries = true ->
-  forall e f, In e entries -> reach g e f -> inert g f = true.
+Theorem static_inert_with perm g S entries :
+  static_ok_with perm g S entries = true ->
+  forall e f, In e entries -> reach g e f -> inert_with perm g f = true.
 Proof.
-  unfold static_ok. intros H e f He Hr.
+  unfold static_ok_with. intros H e f He Hr.
   apply andb_true_iff in H as [H Hin]. apply andb_true_iff in H as [Hc Hent].
   rewrite forallb_forall in Hent, Hin. apply Hin.
   eapply closed_sound; [exact Hc| |exact Hr]. apply smem_In. apply Hent. exact He.
@@ -48,6 +48,11 @@ Qed.
 
 Lemma path_reach g a p : path_ok g a p = true -> reach g a (path_end a p).
 Proof. apply path_reach_gen. apply reach_refl. Qed.
+
+Theorem static_inert g S entries :
+  static_ok g S entries = true ->
+  forall e f, In e entries -> reach g e f -> inert g f = true.
+Proof. exact (static_inert_with permitted g S entries). Qed.
 
 (* inertness is about effects only: a function that is inert has no resolve:/fs:/missing: effect *)
 Lemma inert_spec g f : inert g f = true <-> forall e, In e (effects g f) -> permitted e = true.
